@@ -106,22 +106,32 @@ def check(ctx: Ctx) -> None:
         if isinstance(n, ast.Assign) and isinstance(n.targets[0], ast.Name) and isinstance(n.value, ast.Subscript) \
                 and norm(n.value.value) == 'vtChannels' and norm(n.value.slice) == sort_idx:
             sorted_by = n.targets[0].id
-    scat = [n for n in walk_no_nested(fn.node) if isinstance(n, ast.Assign) and isinstance(n.targets[0], ast.Subscript)
-            and isinstance(n.targets[0].slice, ast.Subscript)]
+    from ..astutil import expand, single_locals, mutated_names
+    _defs = single_locals(fn)
+    ex = lambda e: expand(e, _defs, mutated_names(fn) | {sort_idx or ''})
     rets = [n for n in walk_no_nested(fn.node) if isinstance(n, ast.Return)]
-    ok = False
-    detail: Dict = {'argsort_index': sort_idx, 'sorted_gains': sorted_by}
-    if sort_idx and sorted_by and len(scat) == 1 and len(rets) == 1 and isinstance(rets[0].value, ast.Tuple):
-        t = scat[0].targets[0]
-        out_name = norm(t.value)
-        idx = t.slice
-        detail.update({'scatter': norm(scat[0])[:100], 'returned': norm(rets[0].value)})
-        n_argsort = sum(1 for n in ast.walk(fn.node) if isinstance(n, ast.Call) and 'argsort' in norm(n.func))
-        ok = norm(idx.value) == sort_idx and norm(rets[0].value.elts[0]) == out_name and n_argsort == 1
+    if not (sort_idx and sorted_by and len(rets) == 1 and isinstance(rets[0].value, ast.Tuple)):
+        ctx.error('C12.b: doWF no longer sorts the gains with one named argsort index / returns one tuple (argsort index %s, sorted gains %s): '
+                  'cannot tell' % (sort_idx, sorted_by))
+    out_name = norm(rets[0].value.elts[0])
+    scat = [n for n in walk_no_nested(fn.node) if isinstance(n, ast.Assign) and isinstance(n.targets[0], ast.Subscript)
+            and norm(n.targets[0].value) == out_name]
+    detail: Dict = {'argsort_index': sort_idx, 'sorted_gains': sorted_by, 'returned': norm(rets[0].value)}
+    if len(scat) != 1:
+        ctx.error('C12.b: the returned allocation `%s` is not filled by exactly one scatter statement (%d): cannot tell' % (out_name, len(scat)))
+    idx = ex(scat[0].targets[0].slice)
+    detail['scatter'] = norm(scat[0])[:100]
+    detail['scatter_index'] = norm(idx)[:80]
+    names = {x.id for x in ast.walk(idx) if isinstance(x, ast.Name)}
+    through_sort = isinstance(idx, ast.Subscript) and norm(idx.value) == sort_idx
+    fresh = any(isinstance(x, ast.Call) and 'argsort' in norm(x.func) for x in ast.walk(idx))
+    if not through_sort and sort_idx in names and not fresh:
+        ctx.error('C12.b: the scatter index `%s` uses the argsort index in a form that is not `%s[<positions>]`: cannot tell' % (norm(idx)[:60], sort_idx))
+    ok = through_sort
     ctx.obligation('C12.b', 'doWF:unsort', ok, detail)
     if not ok:
-        ctx.violation('C12.b', 'doWF', 'the returned allocation is not scattered back through the argsort index that sorted the '
-                      'gains (%s): the powers come back in the wrong channel order' % detail, fn.path, fn.lineno, operand='unsort')
+        ctx.violation('C12.b', 'doWF', 'the returned allocation is filled at the positions `%s`, not through the argsort index `%s` that sorted the '
+                      'gains: the powers come back in the wrong channel order' % (norm(idx)[:60], sort_idx), fn.path, fn.lineno, operand='unsort')
     # last: its unrecognised shapes answer "cannot tell", which must not hide the definite rules above
     _check_budget(ctx, fn)
 
